@@ -140,8 +140,10 @@ def bool_eval(t, atoms):
                 r = v is None
             return r if op == 'is' else not r
         a, b = int_eval(t[2], atoms), int_eval(t[3], atoms)
-        if a is None or b is None:
-            return None
+        if a is None or b is None or op in ('in', 'not in'):
+            # (membership in a literal tuple, operands that are None by value ...: the general evaluator, which tells "unknown" from None)
+            v = val_eval(t, atoms)
+            return None if v is UNKNOWN else bool(v)
         return {'==': a == b, '!=': a != b, '<': a < b, '<=': a <= b, '>': a > b, '>=': a >= b,
                 'is': a == b, 'is not': a != b}.get(op)
     return None
@@ -555,6 +557,24 @@ def val_eval(t, env):
     if tag == 'unop' and t[1] == 'not':
         v = val_eval(t[2], env)
         return UNKNOWN if v is UNKNOWN else (not v)
+    if tag == 'unop' and t[1] in ('-', '+'):
+        v = val_eval(t[2], env)
+        if v is UNKNOWN or not isinstance(v, (int, float)):
+            return UNKNOWN
+        return -v if t[1] == '-' else +v
+    if tag == 'binop' and t[1] in ('+', '-', '*', '//', '%'):
+        a, b = val_eval(t[2], env), val_eval(t[3], env)
+        if a is UNKNOWN or b is UNKNOWN or not isinstance(a, (int, float)) or not isinstance(b, (int, float)):
+            return UNKNOWN
+        try:
+            return {'+': lambda: a + b, '-': lambda: a - b, '*': lambda: a * b, '//': lambda: a // b, '%': lambda: a % b}[t[1]]()
+        except Exception:
+            return UNKNOWN
+    if tag == 'call' and T.dotted(t[1]) in ('int', 'bool') and len(t[2]) == 1 and not t[3]:
+        v = val_eval(t[2][0], env)
+        if v is UNKNOWN or not isinstance(v, (int, float, bool)):
+            return UNKNOWN
+        return int(v) if T.dotted(t[1]) == 'int' else bool(v)
     if tag == 'cmp':
         a, b = val_eval(t[2], env), val_eval(t[3], env)
         if a is UNKNOWN or b is UNKNOWN:
@@ -567,6 +587,8 @@ def val_eval(t, env):
             if op == 'is not': return a is not b
             if op == '<': return a < b
             if op == '<=': return a <= b
+            if op == '>': return a > b
+            if op == '>=': return a >= b
             if op == 'in': return a in b
             if op == 'not in': return a not in b
         except Exception:
